@@ -370,6 +370,7 @@ func (x *Exec) libInvoke(st *State, key string, c *ssa.CallCommon, args []Val) (
 		return Sc{st.clock}, true
 	case "(net/http.ResponseWriter).Header":
 		rw := args[0].(IfaceV)
+		st.assume(Cmp(">", rw.Pay, IntLit(0))) // the call returned: the writer is an object (a method on a nil writer panics)
 		h := st.load("X|$hdr", []Sort{SInt}, SInt, []Term{rw.Pay})
 		st.assume(Cmp(">", h, IntLit(0)))
 		x.noteLib("ResponseWriter.Header(): the response's header map (ghost field $hdr, non-nil)")
